@@ -247,6 +247,26 @@ def canon_sign(d: Rat):
     return flip, prim
 
 
+def special_angle(fname, q: Fraction):
+    """exact cos / sin of q*pi for q a multiple of 1/12 with a closed form in sqrt(2), sqrt(3); None otherwise"""
+    q = q % 2
+    if (q * 12).denominator != 1:
+        return None
+    k = int(q * 12)                     # angle = k * 15 degrees
+    if fname == "sin":
+        k = (6 - k) % 24                # sin(t) = cos(pi/2 - t)
+    k %= 24
+    if k > 12:
+        k = 24 - k                      # cos is even about pi
+    sign = 1
+    if k > 6:
+        k, sign = 12 - k, -1            # cos(pi - t) = -cos t
+    table = {0: Rat.const(1), 2: sqrt_of(Rat.const(3)) / 2, 3: sqrt_of(Rat.const(2)) / 2, 4: Rat.const(Fraction(1, 2)), 6: Rat.const(0)}
+    if k not in table:
+        return None
+    return table[k] * sign
+
+
 _PI = Fraction("3.14159265358979323846264338327950288419716939937510")
 
 
@@ -426,6 +446,11 @@ class Evaluator:
         params = [a.arg for a in fn.args.args]
         if fn.args.vararg or fn.args.kwarg or fn.args.kwonlyargs:
             raise AnalysisError("E3: unsupported signature of %s" % fn.name)
+        for dec in fn.decorator_list:
+            txt = unparse(dec)
+            # memoising decorators return the function's own value (sharing of that value is the alias rule's business)
+            if not any(k in txt for k in ("lru_cache", "functools.cache", "staticmethod")):
+                raise AnalysisError("E3: %s is wrapped by the decorator `%s`" % (fn.name, txt[:60]))
         env = {}
         defaults = fn.args.defaults
         nd = len(defaults)
@@ -604,10 +629,11 @@ class Evaluator:
                            "integer input makes it an integer array and the stored floats are truncated" % unparse(target))
                     self.hazards.append(rec)
                     HAZARDS.append(rec)
+                if any(not isinstance(i, int) for i in idx[:-1]) or idx[-1] is None:
+                    self.store_general(base, idx, val, target)
+                    return
                 d = base.data
                 for i in idx[:-1]:
-                    if not isinstance(i, int):
-                        raise AnalysisError("E3: slice store unsupported (line %d)" % target.lineno)
                     d = d[i]
                 last = idx[-1]
                 if isinstance(last, int):
@@ -635,6 +661,73 @@ class Evaluator:
             raise AnalysisError("E3: store into %r unsupported (line %d)" % (type(base).__name__, target.lineno))
         raise AnalysisError("E3: unsupported assignment target (line %d)" % target.lineno)
 
+    def store_general(self, base, idx, val, target):
+        """base[idx] = val for any mix of integers, slices and newaxis: the selected positions are computed by indexing an
+        array of index paths, the value is broadcast over them (numpy alignment of trailing dimensions)"""
+        def paths(d, pre):
+            return [paths(x, pre + (i,)) for i, x in enumerate(d)] if isinstance(d, list) else pre
+
+        def take(d, ix):
+            if not ix:
+                return d
+            i = ix[0]
+            if i is None:
+                return [take(d, ix[1:])]
+            if not isinstance(d, list):
+                raise AnalysisError("E3: too many indices in a store (line %d)" % target.lineno)
+            if isinstance(i, int):
+                try:
+                    return take(d[i], ix[1:])
+                except IndexError:
+                    raise AnalysisError("E3: index out of range in a store (line %d)" % target.lineno)
+            return [take(x, ix[1:]) for x in d[i]]
+
+        def rank(d):
+            r = 0
+            while isinstance(d, list):
+                r += 1
+                d = d[0] if d else None
+            return r
+        sel = take(paths(base.data, ()), list(idx))
+        if isinstance(val, Arr):
+            v = val.data
+        elif isinstance(val, (Opaque, list, tuple)):
+            m = materialise(val)
+            v = m.data if m is not None else scalar(val)
+        else:
+            v = val
+
+        def put(path, x):
+            d = base.data
+            for i in path[:-1]:
+                d = d[i]
+            if isinstance(d[path[-1]], list):
+                raise AnalysisError("E3: store of a scalar over a sub-array (line %d)" % target.lineno)
+            d[path[-1]] = scalar(x)
+
+        def rec(sl, x):
+            if isinstance(sl, tuple):
+                if isinstance(x, list):
+                    if len(x) != 1:
+                        raise AnalysisError("E3: store of incompatible shape (line %d)" % target.lineno)
+                    return rec(sl, x[0])
+                return put(sl, x)
+            if isinstance(x, list) and rank(x) == rank(sl):
+                if len(x) == len(sl):
+                    for a_, b_ in zip(sl, x):
+                        rec(a_, b_)
+                elif len(x) == 1:
+                    for a_ in sl:
+                        rec(a_, x[0])
+                else:
+                    raise AnalysisError("E3: store of incompatible shape (line %d)" % target.lineno)
+                return
+            if isinstance(x, list) and rank(x) > rank(sl):
+                raise AnalysisError("E3: store of incompatible shape (line %d)" % target.lineno)
+            for a_ in sl:
+                rec(a_, x)
+        rec(sel, v)
+
     # ---------------------------------------------------------- expressions
     def index_of(self, sl, env):
         """-> tuple of int | slice"""
@@ -648,6 +741,9 @@ class Evaluator:
                 out.append(slice(lo, hi, stp))
             else:
                 v = self.eval(e, env)
+                if v is None or v == ("npfunc", "newaxis"):
+                    out.append(None)
+                    continue
                 i = const_int(v)
                 if i is None:
                     raise AnalysisError("E3: non-constant index `%s` (line %d)" % (unparse(e), e.lineno))
@@ -673,6 +769,8 @@ class Evaluator:
                 if not idx:
                     return d
                 i = idx[0]
+                if i is None:
+                    return [take(d, idx[1:])]
                 if not isinstance(d, list):
                     raise AnalysisError("E3: too many indices (line %d)" % node.lineno)
                 if isinstance(i, int):
@@ -684,7 +782,7 @@ class Evaluator:
             r = take(base.data, list(idx))
             return Arr(r) if isinstance(r, list) else r
         if isinstance(base, Opaque):
-            if all(isinstance(i, int) for i in idx):
+            if all(isinstance(i, int) and not isinstance(i, bool) for i in idx):
                 o = Opaque(base.base, base.shape, base.idx + tuple(idx))
                 if base.shape is not None:
                     if len(o.idx) > len(base.shape):
@@ -788,6 +886,8 @@ class Evaluator:
             raise AnalysisError("E3: string formatting with a non-constant (line %d)" % getattr(node, "lineno", 0))
         if isinstance(op, ast.Add) and isinstance(a, str) and isinstance(b, str):
             return a + b
+        if isinstance(op, ast.Add) and isinstance(a, (list, tuple)) and isinstance(b, (list, tuple)) and type(a) is type(b):
+            return a + b                    # python sequences concatenate (numpy arrays are Arr / Opaque)
         if isinstance(op, ast.MatMult):
             return self.np_dot(a, b, node)
         A = a if isinstance(a, Arr) else (materialise(a) if isinstance(a, (Opaque, list, tuple)) else None)
@@ -929,6 +1029,9 @@ class Evaluator:
                 return x > y
             if isinstance(op, ast.GtE):
                 return x >= y
+            if isinstance(op, (ast.In, ast.NotIn)) and isinstance(y, (list, tuple, str, dict)):
+                r = x in y
+                return r if isinstance(op, ast.In) else not r
         except TypeError:
             pass
         raise AnalysisError("E3: unsupported comparison (line %d)" % node.lineno)
@@ -1222,6 +1325,11 @@ class Evaluator:
             return list(getattr(base, attr)())
         if attr == "transpose" and not args:
             return self.np_transpose(base, node)
+        if attr == "transpose" and args:
+            axes = args[0] if len(args) == 1 and isinstance(args[0], (list, tuple)) else args
+            return self.np_transpose_axes(base, [const_int(a_) for a_ in axes], node)
+        if attr == "clip" and isinstance(base, Arr) and len(args) == 2:
+            return self.np_call("clip", [base] + list(args), kwargs, node)
         if attr in ("max", "min", "trace") and not isinstance(base, (dict, str)):
             return self.np_call(attr, [base] + list(args), kwargs, node)
         if attr in ("tolist", "flatten", "ravel") and not args and isinstance(base, Arr):
@@ -1288,6 +1396,29 @@ class Evaluator:
             raise AnalysisError("E3: transpose of rank %d" % len(s))
         return Arr([[A.data[i][j] for i in range(s[0])] for j in range(s[1])])
 
+    def np_transpose_axes(self, a, axes, node):
+        A = a if isinstance(a, Arr) else materialise(a)
+        if A is None or any(x is None for x in axes) or sorted(axes) != list(range(len(A.shape))):
+            raise AnalysisError("E3: transpose with axes %s of %r (line %d)" % (axes, a, getattr(node, "lineno", 0)))
+        shape = A.shape
+        new_shape = [shape[k] for k in axes]
+        import itertools
+
+        def get(idx):
+            d = A.data
+            for i in idx:
+                d = d[i]
+            return d
+
+        def build(pre, dims):
+            if not dims:
+                src = [0] * len(axes)
+                for pos, k in enumerate(axes):
+                    src[k] = pre[pos]
+                return get(src)
+            return [build(pre + [i], dims[1:]) for i in range(dims[0])]
+        return Arr(build([], new_shape))
+
     def np_dot(self, a, b, node):
         if isinstance(a, Rat) or isinstance(b, Rat):
             return self.binop(ast.Mult(), a, b, node)
@@ -1351,6 +1482,12 @@ class Evaluator:
                     x = -x
             if x.is_zero():
                 return Rat.const(1 if fname == "cos" else 0)
+            if fname in ("cos", "sin") and x.atoms() == {"pi"}:
+                q = x / Rat.atom("pi")
+                if q.is_const():
+                    ex = special_angle(fname, q.const_value())
+                    if ex is not None:
+                        return ex if (fname == "cos" or not neg) else -ex
             info = atom_info(x)
             if info is not None and fname in ("cos", "sin") and info[0] in ("arccos", "arcsin"):
                 inner = info[1][0]
@@ -1422,10 +1559,15 @@ class Evaluator:
             if k is None:
                 raise AnalysisError("E3: eye of non-constant size")
             return Arr([[Rat.const(1 if i == j else 0) for j in range(k)] for i in range(k)])
-        if name == "transpose" and len(args) == 1:
+        if name == "transpose" and len(args) == 1 and "axes" not in kwargs:
             return self.np_transpose(args[0], node)
+        if name == "transpose" and (len(args) == 2 or "axes" in kwargs):
+            axes = args[1] if len(args) == 2 else kwargs["axes"]
+            return self.np_transpose_axes(args[0], [const_int(a_) for a_ in axes], node)
         if name == "dot" and len(args) == 2:
             return self.np_dot(args[0], args[1], node)
+        if name == "sum" and len(args) == 1 and set(kwargs) == {"axis"}:
+            return self.method_call(args[0], "sum", [], kwargs, node)
         if name == "sum" and len(args) == 1 and not kwargs:
             v = args[0]
             A = v if isinstance(v, Arr) else materialise(v)
@@ -1461,6 +1603,11 @@ class Evaluator:
                 shape = v.shape
             if isinstance(v, Opaque) and v.base.startswith("inv(") and not v.idx:
                 return Opaque(v.base[4:-1], shape)
+            if A is not None and len(shape) == 2 and shape[0] == shape[1] and shape[0] <= 3 and closed_constant(A):
+                ex = exact_inverse(A)
+                if ex is None:
+                    raise AnalysisError("E3: inverse of a singular constant matrix (line %d)" % getattr(node, "lineno", 0))
+                return ex
             if A is not None and len(shape) == 2:
                 # homogeneity: inv(s*M) = inv(M)/s for the common positive content s = q*pi^k
                 content, prim = array_content(A)
@@ -1556,6 +1703,32 @@ class Evaluator:
                                 raise AnalysisError("E3: %s of incompatible shapes (line %d)" % (name, node.lineno))
                             return [cat([d[i] for d in ds], ax - 1) for i in range(n0.pop())]
                         return Arr(cat([p.copy().data for p in parts], axis))
+        if name == "arange" and len(args) == 1 and not kwargs and const_int(args[0]) is not None:
+            return Arr([Rat.const(i) for i in range(const_int(args[0]))])
+        if name == "empty" and len(args) >= 1:
+            shp = args[0]
+            dims = [const_int(x) for x in (shp if isinstance(shp, (list, tuple)) else [shp])]
+            if all(d is not None for d in dims):
+                cnt = self.__dict__.setdefault("_uninit", [0])
+
+                def builde(ds):
+                    if ds:
+                        return [builde(ds[1:]) for _ in range(ds[0])]
+                    cnt[0] += 1
+                    return Rat.atom("uninitialised#%d" % cnt[0])
+                return Arr(builde(dims))
+        if name == "clip" and len(args) == 3 and not kwargs and not isinstance(args[0], Opaque):
+            lo, hi = scalar(args[1]), scalar(args[2])
+            A = args[0] if isinstance(args[0], Arr) else (materialise(args[0]) if isinstance(args[0], (list, tuple)) else None)
+
+            def cl(x):
+                return func_atom("clip", scalar(x), lo, hi)
+            if A is not None and A.shape != ():
+                def recc(d):
+                    return [recc(x) for x in d] if isinstance(d, list) else cl(d)
+                return Arr(recc(A.data))
+            if isinstance(args[0], (Rat, int, float)):
+                return cl(args[0])
         if name == "linalg.qr" and len(args) == 1 and not kwargs:
             A = args[0] if isinstance(args[0], Arr) else materialise(args[0])
             if A is not None and len(A.shape) == 2 and A.shape[0] >= A.shape[1]:
@@ -1576,6 +1749,43 @@ class Evaluator:
                     "trace", "argmin", "argmax", "where", "isclose", "any", "all"):
             return self.opaque_call(name, args, kwargs, node)
         raise AnalysisError("E3: numpy function %s unsupported (line %d)" % (name, node.lineno))
+
+
+def closed_constant(A: Arr):
+    """every entry is a closed form: rational combinations of pi and square roots of rationals"""
+    from .poly import RADICAND
+    for x in A.flat():
+        x = scalar(x)
+        for a in x.atoms():
+            if a == "pi":
+                continue
+            if a in RADICAND and a.startswith("sqrt(") and RADICAND[a].is_const():
+                continue
+            return False
+    return True
+
+
+def exact_inverse(A: Arr):
+    """adjugate / determinant in the normal-form arithmetic (n <= 3); None if singular"""
+    n_ = A.shape[0]
+    m = [[scalar(x) for x in r] for r in A.data]
+    if n_ == 1:
+        return None if m[0][0].is_zero() else Arr([[Rat.const(1) / m[0][0]]])
+    if n_ == 2:
+        det = m[0][0] * m[1][1] - m[0][1] * m[1][0]
+        if det.is_zero():
+            return None
+        return Arr([[m[1][1] / det, -m[0][1] / det], [-m[1][0] / det, m[0][0] / det]])
+
+    def cof(i, j):
+        r = [k for k in range(3) if k != i]
+        c = [k for k in range(3) if k != j]
+        v = m[r[0]][c[0]] * m[r[1]][c[1]] - m[r[0]][c[1]] * m[r[1]][c[0]]
+        return v if (i + j) % 2 == 0 else -v
+    det = m[0][0] * cof(0, 0) + m[0][1] * cof(0, 1) + m[0][2] * cof(0, 2)
+    if det.is_zero():
+        return None
+    return Arr([[cof(j, i) / det for j in range(3)] for i in range(3)])
 
 
 def array_content(A: Arr):
